@@ -6,17 +6,17 @@ Import ListNotations.
 Open Scope Z_scope.
 
 (* index of the first call the monitor rejects *)
-Fixpoint first_bad_call (i : Z) (l : list (Z * bool * Z)) : option Z :=
+Fixpoint first_bad_call (phase i : Z) (l : list (Z * bool * Z)) : option Z :=
   match l with
   | [] => None
-  | cl :: rest => if call_okb cl then first_bad_call (i + 1) rest else Some i
+  | cl :: rest => if call_okb phase cl then first_bad_call phase (i + 1) rest else Some i
   end.
 
 (* step codes: 0 = Stop itself (did not return / too late), 1+i = call i,
    100 = reopening the data directory *)
 Definition bad_step (c : case) : Z :=
   if negb (c_stop_returned c) || negb (c_stop_ms c <=? stop_bound_ms) then 0
-  else match first_bad_call 1 (c_calls c) with
+  else match first_bad_call (c_phase c) 1 (c_calls c) with
        | Some i => i
        | None => 100
        end.
